@@ -78,14 +78,103 @@ Proof.
     inversion Fr; subst. cbn. destruct ws2; [congruence|discriminate].
 Qed.
 
-Lemma combined_join : forall ws, ws <> [] -> combined ws = join ws.
+(* ---- raw identifiers ---- *)
+Lemma unraw_eq s : unraw s = match s with
+                             | String c (String d rest) => if (Ascii.eqb c "r"%char && Ascii.eqb d "#"%char)%bool then rest else s
+                             | _ => s
+                             end.
 Proof.
-  intros [|w t] H; [congruence|]. cbn [combined]. clear H.
-  enough (G : forall t w pre, fold_left (fun acc x => acc ++ "_" ++ x) t (pre ++ w) = pre ++ join (w :: t)) by exact (G t w "").
-  clear. induction t as [|x t IH]; intros w pre; [reflexivity|].
-  cbn [fold_left]. rewrite join_cons2.
-  replace ((pre ++ w) ++ "_" ++ x) with ((pre ++ w ++ "_") ++ x) by (rewrite !sapp_assoc; reflexivity).
-  rewrite IH. rewrite !sapp_assoc. reflexivity.
+  destruct s as [|c s']; [reflexivity|].
+  destruct (Ascii.eqb_spec c "r"%char) as [->|Nc].
+  - destruct s' as [|d rest]; [reflexivity|].
+    destruct (Ascii.eqb_spec d "#"%char) as [->|Nd]; [reflexivity|].
+    cbn [andb]. destruct d as [[] [] [] [] [] [] [] []]; try reflexivity. congruence.
+  - destruct s' as [|d rest]; destruct c as [[] [] [] [] [] [] [] []]; try reflexivity; congruence.
+Qed.
+
+Lemma unraw_no_raw s : no_raw s = true -> unraw s = s.
+Proof.
+  rewrite unraw_eq. unfold no_raw. destruct s as [|c [|d r]]; try reflexivity.
+  destruct (Ascii.eqb c "r"%char && Ascii.eqb d "#"%char)%bool; [discriminate|reflexivity].
+Qed.
+
+Lemma no_raw_ident_like s : no_raw s = true -> ident_like s = true.
+Proof. intros N. unfold ident_like. rewrite (unraw_no_raw s N). exact N. Qed.
+
+Lemma no_raw_app a b : no_raw a = true -> no_raw (a ++ String underscore b) = true.
+Proof.
+  destruct a as [|c [|d r]]; intros N.
+  - destruct b; reflexivity.
+  - cbn [append no_raw]. replace (Ascii.eqb underscore "#"%char) with false by reflexivity. rewrite andb_false_r. reflexivity.
+  - exact N.
+Qed.
+
+Lemma forallb_imp {X} (f g : X -> bool) : (forall x, f x = true -> g x = true) -> forall l, forallb f l = true -> forallb g l = true.
+Proof.
+  intros I. induction l as [|x l IH]; [reflexivity|]. cbn [forallb]. intros H. apply andb_prop in H. destruct H as [H1 H2].
+  rewrite (I x H1), (IH H2). reflexivity.
+Qed.
+
+Lemma map_unraw_id ws : forallb no_raw ws = true -> map unraw ws = ws.
+Proof.
+  induction ws as [|w t IH]; [reflexivity|]. cbn [forallb map]. intros H. apply andb_prop in H. destruct H as [H1 H2].
+  rewrite (unraw_no_raw w H1), (IH H2). reflexivity.
+Qed.
+
+Lemma spec_words_join ws : forallb no_raw ws = true -> spec_words ws = join ws.
+Proof.
+  intros N. destruct ws as [|w [|x t]]; try reflexivity.
+  change (spec_words (w :: x :: t)) with (join (map unraw (w :: x :: t))). rewrite (map_unraw_id _ N). reflexivity.
+Qed.
+
+Lemma spec_words_app ws vs : ws <> [] -> vs <> [] -> spec_words (ws ++ vs)%list = join (map unraw (ws ++ vs)%list).
+Proof. destruct ws as [|a [|b r]], vs as [|c vs]; intros Hw Hv; try congruence; reflexivity. Qed.
+
+(* the left fold of format_ident!("{}_{}", ..): only the head can lose a second `r#` *)
+Lemma fold_raw : forall t a, no_raw (unraw a) = true -> t <> [] ->
+  fold_left (fun acc x => unraw acc ++ "_" ++ unraw x) t a = join (unraw a :: map unraw t).
+Proof.
+  induction t as [|x t IH]; intros a Na Ht; [congruence|].
+  cbn [fold_left]. destruct t as [|y t]; [reflexivity|].
+  assert (Nf : no_raw (unraw a ++ "_" ++ unraw x) = true) by exact (no_raw_app (unraw a) (unraw x) Na).
+  assert (Uf : unraw (unraw a ++ "_" ++ unraw x) = unraw a ++ "_" ++ unraw x) by exact (unraw_no_raw _ Nf).
+  assert (Nf' : no_raw (unraw (unraw a ++ "_" ++ unraw x)) = true) by (rewrite Uf; exact Nf).
+  assert (Hy : y :: t <> []) by discriminate.
+  rewrite (IH _ Nf' Hy), Uf. cbn [map]. rewrite !join_cons2, sapp_assoc. reflexivity.
+Qed.
+
+Lemma combined_spec w t : ident_like w = true -> combined (w :: t) = spec_words (w :: t).
+Proof.
+  intros I. destruct t as [|x t]; [reflexivity|].
+  change (combined (w :: x :: t)) with (fold_left (fun acc x0 => unraw acc ++ "_" ++ unraw x0) (x :: t) w).
+  assert (Hx : x :: t <> []) by discriminate. rewrite (fold_raw _ _ I Hx). reflexivity.
+Qed.
+
+(* two or more words: the name never starts with `r#` *)
+Lemma jraw_no_raw w t : ident_like w = true -> no_raw (join (map unraw (w :: t))) = true.
+Proof.
+  intros I. destruct t as [|x t]; [exact I|]. cbn [map]. rewrite join_cons2. apply no_raw_app. exact I.
+Qed.
+
+Lemma unraw_spec_words w t : ident_like w = true -> unraw (spec_words (w :: t)) = join (map unraw (w :: t)).
+Proof.
+  intros I. destruct t as [|x t]; [reflexivity|].
+  change (spec_words (w :: x :: t)) with (join (map unraw (w :: x :: t))). apply unraw_no_raw, jraw_no_raw, I.
+Qed.
+
+Lemma spec_words_facts ws : ws <> [] -> (forall w, In w ws -> ident_like w = true) ->
+  unraw (spec_words ws) = join (map unraw ws) /\ ident_like (spec_words ws) = true.
+Proof.
+  destruct ws as [|w t]; intros H I; [congruence|].
+  assert (Iw : ident_like w = true) by (apply I; left; reflexivity).
+  split; [exact (unraw_spec_words w t Iw)|]. unfold ident_like. rewrite (unraw_spec_words w t Iw). exact (jraw_no_raw w t Iw).
+Qed.
+
+(* without raw identifiers the fold is the plain join *)
+Lemma combined_join : forall ws, ws <> [] -> forallb no_raw ws = true -> combined ws = join ws.
+Proof.
+  intros [|w t] H N; [congruence|]. rewrite <- (spec_words_join _ N). apply combined_spec.
+  cbn [forallb] in N. apply andb_prop in N. exact (no_raw_ident_like w (proj1 N)).
 Qed.
 
 Lemma join_inj : forall ws ws', forallb no_us ws = true -> forallb no_us ws' = true -> ws <> [] -> ws' <> [] ->
@@ -143,35 +232,147 @@ Proof.
   destruct q; cbn [is_rest negb map List.concat words]; rewrite IH; reflexivity.
 Qed.
 
-Lemma composite_name l : forallb supported l = true ->
-  combined (map spec_name (filter nonrest l)) = join (match flat_map words l with [] => ["__"] | ws => ws end).
+(* the specification with raw binders: one word is kept as it is, two or more lose their `r#` *)
+Definition spec_name_raw (p : pat) : string := spec_words (words p).
+Definition flat_spec_raw (p : pat) : fres :=
+  if supported p then (if is_rest p then FSkip else FName (spec_name_raw p)) else FAbort.
+
+Lemma flat_list_spec_raw l : Forall (fun p => flat_pat p = flat_spec_raw p) l ->
+  flat_list l = if forallb supported l then Some (map spec_name_raw (filter nonrest l)) else None.
 Proof.
-  intros S. rewrite flat_map_words_filter.
-  assert (F : Forall (fun ws => ws <> []) (map words (filter nonrest l))).
-  { apply Forall_forall. intros ws Hin. apply in_map_iff in Hin. destruct Hin as (q & <- & Hq).
-    apply filter_In in Hq. destruct Hq as [Hq Hn]. rewrite forallb_forall in S.
-    apply words_nonempty; [apply S, Hq|]. unfold nonrest in Hn. destruct (is_rest q); [discriminate|reflexivity]. }
-  destruct (filter nonrest l) as [|q t] eqn:E; [reflexivity|].
-  assert (N : List.concat (map words (q :: t)) <> []).
-  { cbn. inversion F; subst. destruct (words q); [congruence|discriminate]. }
-  destruct (List.concat (map words (q :: t))) as [|c cs] eqn:Ec; [congruence|]. rewrite <- Ec.
-  rewrite combined_join by discriminate.
-  unfold spec_name. rewrite <- map_map. apply join_concat. exact F.
+  induction l as [|q t IH]; intros F; [reflexivity|].
+  inversion F as [|? ? Hq Ft]; subst. cbn [flat_list forallb filter]. rewrite Hq, (IH Ft). unfold flat_spec_raw, nonrest.
+  destruct (supported q); cbn; [|reflexivity].
+  destruct (is_rest q); cbn; destruct (forallb supported t); reflexivity.
 Qed.
 
-Theorem flat_pat_spec : forall p, flat_pat p = flat_spec p.
+(* words are binders or `__`; binders are words *)
+Lemma words_forallb (f : string -> bool) : f "__" = true -> forall p, forallb f (binders p) = true -> forallb f (words p) = true.
 Proof.
-  assert (C : forall l, Forall (fun p => flat_pat p = flat_spec p) l ->
-              flat_pat (PTuple l) = flat_spec (PTuple l)).
-  { intros l F. destruct (flat_composite l) as (_ & _ & _ & ->). rewrite (flat_list_spec l F).
-    unfold flat_spec. cbn [supported is_rest]. destruct (forallb supported l) eqn:S; [|reflexivity].
-    rewrite composite_name by exact S. reflexivity. }
-  induction p using pat_ind'; try reflexivity.
-  - apply C. assumption.
+  intros Hu.
+  assert (L : forall l, Forall (fun p => forallb f (binders p) = true -> forallb f (words p) = true) l ->
+              forallb f (flat_map binders l) = true -> forallb f (flat_map words l) = true).
+  { induction l as [|q t IH]; intros F N; [reflexivity|]. inversion F as [|? ? Hq Ft]; subst. cbn [flat_map] in *.
+    rewrite forallb_app in *. apply andb_prop in N. destruct N as [N1 N2]. rewrite (Hq N1), (IH Ft N2). reflexivity. }
+  assert (C : forall l, Forall (fun p => forallb f (binders p) = true -> forallb f (words p) = true) l ->
+              forallb f (flat_map binders l) = true ->
+              forallb f (match flat_map words l with [] => ["__"] | ws => ws end) = true).
+  { intros l F N. pose proof (L l F N) as W. destruct (flat_map words l); [cbn; rewrite Hu; reflexivity|exact W]. }
+  induction p using pat_ind'; cbn [words binders]; auto.
+Qed.
+
+Lemma flat_map_words_forallb (f : string -> bool) : f "__" = true ->
+  forall l, forallb f (flat_map binders l) = true -> forallb f (flat_map words l) = true.
+Proof.
+  intros Hu. induction l as [|q t IH]; intros N; [reflexivity|]. cbn [flat_map] in *.
+  rewrite forallb_app in *. apply andb_prop in N. destruct N as [N1 N2]. rewrite (words_forallb f Hu q N1), (IH N2). reflexivity.
+Qed.
+
+Lemma binders_forallb (f : string -> bool) : forall p, forallb f (words p) = true -> forallb f (binders p) = true.
+Proof.
+  assert (L : forall l, Forall (fun p => forallb f (words p) = true -> forallb f (binders p) = true) l ->
+              forallb f (flat_map words l) = true -> forallb f (flat_map binders l) = true).
+  { induction l as [|q t IH]; intros F N; [reflexivity|]. inversion F as [|? ? Hq Ft]; subst. cbn [flat_map] in *.
+    rewrite forallb_app in *. apply andb_prop in N. destruct N as [N1 N2]. rewrite (Hq N1), (IH Ft N2). reflexivity. }
+  assert (C : forall l, Forall (fun p => forallb f (words p) = true -> forallb f (binders p) = true) l ->
+              forallb f (match flat_map words l with [] => ["__"] | ws => ws end) = true ->
+              forallb f (flat_map binders l) = true).
+  { intros l F N. apply L; [exact F|]. destruct (flat_map words l); [reflexivity|exact N]. }
+  induction p using pat_ind'; cbn [words binders]; auto.
+Qed.
+
+Lemma composite_name_raw l : forallb supported l = true -> forallb ident_like (flat_map binders l) = true ->
+  combined (map spec_name_raw (filter nonrest l)) = spec_words (match flat_map words l with [] => ["__"] | ws => ws end).
+Proof.
+  intros S G.
+  assert (GW : forallb ident_like (flat_map words l) = true) by (apply flat_map_words_forallb; [reflexivity|exact G]).
+  assert (Q : forall q, In q (filter nonrest l) -> words q <> [] /\ (forall w, In w (words q) -> ident_like w = true)).
+  { intros q Hq. apply filter_In in Hq. destruct Hq as [Hq Hn]. split.
+    - rewrite forallb_forall in S. apply words_nonempty; [apply S, Hq|]. unfold nonrest in Hn. destruct (is_rest q); [discriminate|reflexivity].
+    - intros w Hw. rewrite forallb_forall in GW. apply GW. apply in_flat_map. exists q. split; assumption. }
+  rewrite flat_map_words_filter.
+  destruct (filter nonrest l) as [|q1 [|q2 t]]; [reflexivity| |].
+  - destruct (Q q1 (or_introl eq_refl)) as [N1 _]. cbn [map List.concat]. rewrite app_nil_r.
+    destruct (words q1) eqn:E1; [congruence|]. rewrite <- E1. reflexivity.
+  - destruct (Q q1 (or_introl eq_refl)) as [N1 I1]. destruct (Q q2 (or_intror (or_introl eq_refl))) as [N2 _].
+    destruct (spec_words_facts _ N1 I1) as [_ IL1].
+    cbn [map]. rewrite (combined_spec (spec_name_raw q1) _ IL1).
+    change (spec_words (spec_name_raw q1 :: spec_name_raw q2 :: map spec_name_raw t))
+      with (join (map unraw (map spec_name_raw (q1 :: q2 :: t)))).
+    cbn [List.concat].
+    assert (N2' : (words q2 ++ List.concat (map words t))%list <> []) by (destruct (words q2); [congruence|discriminate]).
+    replace (match (words q1 ++ words q2 ++ List.concat (map words t))%list with [] => ["__"] | ws => ws end)
+      with (words q1 ++ words q2 ++ List.concat (map words t))%list by (destruct (words q1); [congruence|reflexivity]).
+    rewrite (spec_words_app _ _ N1 N2').
+    change (words q1 ++ words q2 ++ List.concat (map words t))%list with (List.concat (map words (q1 :: q2 :: t))).
+    rewrite concat_map.
+    rewrite <- join_concat.
+    + rewrite !map_map. f_equal. apply map_ext_in. intros q Hq. destruct (Q q Hq) as [Nq Iq]. exact (proj1 (spec_words_facts _ Nq Iq)).
+    + apply Forall_forall. intros ws Hin. rewrite map_map in Hin. apply in_map_iff in Hin. destruct Hin as (q & <- & Hq).
+      destruct (Q q Hq) as [Nq _]. destruct (words q); [congruence|discriminate].
+Qed.
+
+Lemma forall_guard (f : string -> bool) (R : pat -> Prop) l :
+  Forall (fun p => forallb f (binders p) = true -> R p) l -> forallb f (flat_map binders l) = true -> Forall R l.
+Proof.
+  induction l as [|q t IH]; intros F G; [constructor|]. inversion F as [|? ? Hq Ft]; subst.
+  cbn [flat_map] in G. rewrite forallb_app in G. apply andb_prop in G. destruct G as [G1 G2]. constructor; auto.
+Qed.
+
+(* MAIN: for binders that are identifiers (at most one `r#`), flat_pat is its raw-aware specification.
+   The guard is needed: `(r#r#a, b, c)` is no token the parser produces and the fold strips its head twice
+   (flat_pat_spec_raw_guard_needed below). *)
+Theorem flat_pat_spec_raw : forall p, forallb ident_like (binders p) = true -> flat_pat p = flat_spec_raw p.
+Proof.
+  assert (C : forall l, Forall (fun p => forallb ident_like (binders p) = true -> flat_pat p = flat_spec_raw p) l ->
+              forallb ident_like (flat_map binders l) = true -> flat_pat (PTuple l) = flat_spec_raw (PTuple l)).
+  { intros l F G. destruct (flat_composite l) as (_ & _ & _ & ->). rewrite (flat_list_spec_raw l (forall_guard _ _ _ F G)).
+    unfold flat_spec_raw. cbn [supported is_rest]. destruct (forallb supported l) eqn:S; [|reflexivity].
+    unfold spec_name_raw at 2. cbn [words]. rewrite (composite_name_raw l S G). reflexivity. }
+  induction p using pat_ind'; try reflexivity; cbn [binders]; intros G.
+  - apply C; assumption.
   - destruct (flat_composite l) as (-> & _). rewrite (C l) by assumption. reflexivity.
   - destruct (flat_composite l) as (_ & -> & _). rewrite (C l) by assumption. reflexivity.
   - destruct (flat_composite l) as (_ & _ & -> & _). rewrite (C l) by assumption. reflexivity.
 Qed.
+
+Lemma spec_name_raw_plain p : forallb no_raw (binders p) = true -> spec_name_raw p = spec_name p.
+Proof. intros G. unfold spec_name_raw, spec_name. apply spec_words_join. apply words_forallb; [reflexivity|exact G]. Qed.
+
+(* without raw binders the name is the plain join of the words *)
+Theorem flat_pat_spec : forall p, forallb no_raw (binders p) = true -> flat_pat p = flat_spec p.
+Proof.
+  intros p G. rewrite (flat_pat_spec_raw p (forallb_imp _ _ no_raw_ident_like _ G)).
+  unfold flat_spec_raw, flat_spec. rewrite (spec_name_raw_plain p G). reflexivity.
+Qed.
+
+(* nested raw binders: ((r#a,), b) ; ((r#a, c), b) ; ((r#a,),) *)
+Example flat_pat_raw_nested1 :
+  flat_pat (PTuple [PTuple [PIdent false false "r#a"]; PIdent false false "b"]) = FName "a_b".
+Proof. vm_compute. reflexivity. Qed.
+Example flat_pat_raw_nested2 :
+  flat_pat (PTuple [PTuple [PIdent false false "r#a"; PIdent false false "c"]; PIdent false false "b"]) = FName "a_c_b".
+Proof. vm_compute. reflexivity. Qed.
+Example flat_pat_raw_nested3 : flat_pat (PTuple [PTuple [PIdent false false "r#a"]]) = FName "r#a".
+Proof. vm_compute. reflexivity. Qed.
+
+(* name::combined_ident on the concrete inputs of the real code *)
+Example combined_raw1 : combined ["a"; "r#type"] = "a_type". Proof. vm_compute. reflexivity. Qed.
+Example combined_raw2 : combined ["r#type"; "b"] = "type_b". Proof. vm_compute. reflexivity. Qed.
+Example combined_raw3 : combined ["r#type"] = "r#type". Proof. vm_compute. reflexivity. Qed.
+Example combined_raw4 : combined ["r#type"; "r#match"; "c"] = "type_match_c". Proof. vm_compute. reflexivity. Qed.
+Example combined_raw5 : combined ["a"; "b"; "__"] = "a_b___". Proof. vm_compute. reflexivity. Qed.
+
+(* the guard of flat_pat_spec_raw is needed (a doubly raw head is stripped twice by the fold, once by the specification) ... *)
+Example flat_pat_spec_raw_guard_needed :
+  let p := PTuple [PIdent false false "r#r#a"; PIdent false false "b"; PIdent false false "c"] in
+  flat_pat p = FName "a_b_c" /\ flat_spec_raw p = FName "r#a_b_c" /\ forallb ident_like (binders p) = false.
+Proof. vm_compute. repeat split. Qed.
+(* ... and so is the guard of flat_pat_spec (the plain join keeps the `r#`) *)
+Example flat_pat_spec_unguarded_refuted :
+  let p := PTuple [PIdent false false "r#a"; PIdent false false "b"] in
+  flat_pat p = FName "a_b" /\ flat_spec p = FName "r#a_b" /\ forallb ident_like (binders p) = true.
+Proof. vm_compute. repeat split. Qed.
 
 (* ---- ref / mut ---- *)
 Lemma strip_all_flat : forall p, flat_pat (strip_all p) = flat_pat p.
@@ -199,6 +400,31 @@ Proof.
 Qed.
 Lemma smem_false x l : smem x l = false <-> ~ In x l.
 Proof. rewrite <- smem_In. destruct (smem x l); split; congruence. Qed.
+
+(* a reserved name contains no `#`, so a pattern whose plain name is reserved has no raw binder *)
+Fixpoint no_hash (s : string) : bool :=
+  match s with EmptyString => true | String c r => negb (Ascii.eqb c "#"%char) && no_hash r end.
+Lemma no_hash_app a b : no_hash (a ++ b) = no_hash a && no_hash b.
+Proof. induction a as [|c a IH]; [reflexivity|]. cbn [append no_hash]. rewrite IH, andb_assoc. reflexivity. Qed.
+Lemma no_hash_join ws : no_hash (join ws) = true -> forallb no_hash ws = true.
+Proof.
+  induction ws as [|w t IH]; [reflexivity|]. destruct t as [|x t].
+  - cbn [join forallb]. intros ->. reflexivity.
+  - rewrite join_cons2, no_hash_app. intros H. apply andb_prop in H. destruct H as [Hw Hr].
+    cbn [no_hash] in Hr. apply andb_prop in Hr. destruct Hr as [_ Hr].
+    cbn [forallb]. rewrite Hw. exact (IH Hr).
+Qed.
+Lemma no_hash_no_raw s : no_hash s = true -> no_raw s = true.
+Proof.
+  destruct s as [|c [|d r]]; try reflexivity. cbn [no_hash no_raw]. intros H.
+  destruct (Ascii.eqb d "#"%char); [|rewrite andb_false_r; reflexivity].
+  cbn [negb andb] in H. rewrite andb_false_r in H. discriminate.
+Qed.
+Lemma reserved_no_raw p : In (spec_name p) reserved_flat -> forallb no_raw (binders p) = true.
+Proof.
+  intros R. apply binders_forallb. apply (forallb_imp _ _ no_hash_no_raw). apply no_hash_join. fold (spec_name p).
+  destruct R as [E|[E|[E|[]]]]; rewrite <- E; reflexivity.
+Qed.
 
 Section Args.
 Context {T : Type}.
@@ -255,15 +481,38 @@ Proof.
     + exact (N i p0 t0 Hn).
 Qed.
 
-Lemma flat_from_names : forall (ps : params) seen qs, flat_args_from seen ps = AOk qs -> map fst qs = names ps.
+Lemma guard_cons (f : string -> bool) p (t : T) (r : params) :
+  forallb f (flat_map binders (map fst ((p, t) :: r))) = true ->
+  forallb f (binders p) = true /\ forallb f (flat_map binders (map fst r)) = true.
+Proof. cbn [map fst flat_map]. rewrite forallb_app. intros G. apply andb_prop in G. exact G. Qed.
+
+(* with raw binders (each at most one `r#`): the identifiers are the raw-aware names *)
+Definition names_raw (ps : params) : list string := map (fun q => spec_name_raw (fst q)) ps.
+Lemma flat_from_names_raw : forall (ps : params) seen qs, forallb ident_like (flat_map binders (map fst ps)) = true ->
+  flat_args_from seen ps = AOk qs -> map fst qs = names_raw ps.
 Proof.
-  induction ps as [|[p t] r IH]; intros seen qs H; cbn [flat_args_from] in H.
+  induction ps as [|[p t] r IH]; intros seen qs G H; cbn [flat_args_from] in H.
   - injection H as <-. reflexivity.
-  - rewrite flat_pat_spec in H. unfold flat_spec in H. destruct (supported p); [|discriminate].
+  - apply guard_cons in G. destruct G as [Gp Gr].
+    rewrite (flat_pat_spec_raw p Gp) in H. unfold flat_spec_raw in H. destruct (supported p); [|discriminate].
+    destruct (is_rest p); [discriminate|]. destruct (smem (spec_name_raw p) seen); [discriminate|].
+    destruct (negb (is_ident p) && smem (spec_name_raw p) reserved_flat); [discriminate|].
+    destruct (flat_args_from (spec_name_raw p :: seen) r) as [q| |] eqn:Er; try discriminate.
+    injection H as <-. cbn. rewrite (IH _ q Gr Er). reflexivity.
+Qed.
+
+(* the guard is needed: `(r#a, b)` is flattened to `a_b`, while names gives `r#a_b` *)
+Lemma flat_from_names : forall (ps : params) seen qs, forallb no_raw (flat_map binders (map fst ps)) = true ->
+  flat_args_from seen ps = AOk qs -> map fst qs = names ps.
+Proof.
+  induction ps as [|[p t] r IH]; intros seen qs G H; cbn [flat_args_from] in H.
+  - injection H as <-. reflexivity.
+  - apply guard_cons in G. destruct G as [Gp Gr].
+    rewrite (flat_pat_spec p Gp) in H. unfold flat_spec in H. destruct (supported p); [|discriminate].
     destruct (is_rest p); [discriminate|]. destruct (smem (spec_name p) seen); [discriminate|].
     destruct (negb (is_ident p) && smem (spec_name p) reserved_flat); [discriminate|].
     destruct (flat_args_from (spec_name p :: seen) r) as [q| |] eqn:Er; try discriminate.
-    injection H as <-. cbn. rewrite (IH _ q Er). reflexivity.
+    injection H as <-. cbn. rewrite (IH _ q Gr Er). reflexivity.
 Qed.
 
 (* the repaired flattening succeeds exactly when every pattern is of a documented form, the identifiers are pairwise distinct
@@ -271,11 +520,13 @@ Qed.
 Definition ok_params (seen : list string) (ps : params) : Prop :=
   forallb (fun q => supported_param (fst q)) ps = true /\ NoDup (names ps) /\ (forall x, In x (names ps) -> ~ In x seen) /\ no_flat_reserved ps.
 
-Theorem flat_from_ok_iff : forall (ps : params) seen, (exists qs, flat_args_from seen ps = AOk qs) <-> ok_params seen ps.
+Theorem flat_from_ok_iff : forall (ps : params) seen, forallb no_raw (flat_map binders (map fst ps)) = true ->
+  ((exists qs, flat_args_from seen ps = AOk qs) <-> ok_params seen ps).
 Proof.
-  unfold ok_params, no_flat_reserved. induction ps as [|[p t] r IH]; intros seen.
+  unfold ok_params, no_flat_reserved. induction ps as [|[p t] r IH]; intros seen G.
   - cbn. split; [intros _; split; [reflexivity|]; split; [constructor|]; split; [intros x []|constructor]|intros _; eauto].
-  - cbn [flat_args_from forallb names map fst]. rewrite flat_pat_spec. unfold flat_spec, supported_param.
+  - apply guard_cons in G. destruct G as [Gp Gr]. pose proof (fun seen' => IH seen' Gr) as IH'. clear IH. rename IH' into IH.
+    cbn [flat_args_from forallb names map fst]. rewrite (flat_pat_spec p Gp). unfold flat_spec, supported_param.
     destruct (supported p); cbn [andb]; [|split; [intros (qs & H); discriminate|intros (H & _); discriminate]].
     destruct (is_rest p); cbn [negb andb]; [split; [intros (qs & H); discriminate|intros (H & _); discriminate]|].
     destruct (smem (spec_name p) seen) eqn:S.
@@ -308,11 +559,39 @@ Proof.
         rewrite Hq. eauto.
 Qed.
 
-(* the identifiers of a successful flattening are pairwise distinct - unconditionally *)
+(* the identifiers of a successful flattening are pairwise distinct - unconditionally, raw binders included: this needs no
+   specification of the names, only the `seen` bookkeeping of check_flat_ident *)
+Lemma flat_from_nodup : forall (ps : params) seen qs, flat_args_from seen ps = AOk qs ->
+  NoDup (map fst qs) /\ (forall x, In x (map fst qs) -> ~ In x seen).
+Proof.
+  induction ps as [|[p t] r IH]; intros seen qs H; cbn [flat_args_from] in H.
+  - injection H as <-. split; [constructor|intros x []].
+  - destruct (flat_pat p) as [s| |]; try discriminate. destruct (smem s seen) eqn:S; [discriminate|]. apply smem_false in S.
+    destruct (negb (is_ident p) && smem s reserved_flat); [discriminate|].
+    destruct (flat_args_from (s :: seen) r) as [q| |] eqn:Er; try discriminate. injection H as <-.
+    destruct (IH _ _ Er) as [N D]. cbn [map fst]. split.
+    + constructor; [|exact N]. intros Hin. apply (D s Hin). left. reflexivity.
+    + intros x [<-|Hx]; [exact S|]. intros Hs. apply (D x Hx). right. exact Hs.
+Qed.
+
+Lemma flat_from_not_reserved : forall (ps : params) seen qs, flat_args_from seen ps = AOk qs ->
+  Forall (fun q => is_ident (fst q) = false -> exists s, flat_pat (fst q) = FName s /\ ~ In s reserved_flat) ps.
+Proof.
+  induction ps as [|[p t] r IH]; intros seen qs H; cbn [flat_args_from] in H; [constructor|].
+  destruct (flat_pat p) as [s| |] eqn:E; try discriminate. destruct (smem s seen); [discriminate|].
+  destruct (negb (is_ident p) && smem s reserved_flat) eqn:B; [discriminate|].
+  destruct (flat_args_from (s :: seen) r) as [q| |] eqn:Er; try discriminate.
+  constructor; [|exact (IH _ _ Er)]. cbn [fst]. intros I. rewrite I in B. cbn [negb andb] in B.
+  exists s. split; [exact E|]. apply smem_false, B.
+Qed.
+
 Theorem flat_distinct : forall (ps : params) qs, flat_arguments ps = AOk qs -> NoDup (map fst qs) /\ no_flat_reserved ps.
 Proof.
-  intros ps qs H. destruct (proj1 (flat_from_ok_iff ps []) (ex_intro _ qs H)) as (_ & N & _ & R).
-  rewrite (flat_from_names ps [] qs H). auto.
+  intros ps qs H. split; [exact (proj1 (flat_from_nodup ps [] qs H))|].
+  unfold no_flat_reserved. eapply Forall_impl; [|exact (flat_from_not_reserved ps [] qs H)].
+  intros [p t] K I R. cbn [fst] in *. destruct (K I) as (s & E & NR).
+  rewrite (flat_pat_spec p (reserved_no_raw p R)) in E. unfold flat_spec in E.
+  destruct (supported p); [|discriminate]. destruct (is_rest p); [discriminate|]. injection E as <-. exact (NR R).
 Qed.
 End Args.
 
@@ -383,11 +662,12 @@ Proof.
 Qed.
 
 (* no spurious diagnostic: documented patterns, distinct `_`-free binders, no empty composite pattern, no flattened reserved name *)
-Theorem flat_no_spurious : forall (ps : list (pat * T)), forallb (fun q => supported_param (fst q)) ps = true ->
+Theorem flat_no_spurious : forall (ps : list (pat * T)), forallb no_raw (flat_map binders (map fst ps)) = true ->
+  forallb (fun q => supported_param (fst q)) ps = true ->
   plain_words (map fst ps) = true -> NoDup (flat_map binders (map fst ps)) -> no_flat_reserved ps ->
   exists qs, flat_arguments ps = AOk qs.
 Proof.
-  intros ps S P N R. apply (flat_from_ok_iff ps []). repeat split; auto.
+  intros ps G S P N R. apply (flat_from_ok_iff ps [] G). repeat split; auto.
   apply names_distinct_guarded; assumption.
 Qed.
 End Distinct.
@@ -418,3 +698,23 @@ Proof.
   - repeat constructor; cbn; intuition discriminate.
   - unfold no_flat_reserved. repeat constructor; cbn; intuition discriminate.
 Qed.
+
+(* the no_raw guard of flat_from_names / flat_from_ok_iff / flat_no_spurious is needed: with raw binders the plain names
+   (`r#a_b`, `a_r#b`) are distinct and `_`-free word by word, yet both patterns are flattened to `a_b` *)
+Definition raw_witness : list (pat * unit) :=
+  [(PTuple [PIdent false false "r#a"; PIdent false false "b"], tt); (PTuple [PIdent false false "a"; PIdent false false "r#b"], tt)].
+Example raw_guard_needed :
+  flat_arguments raw_witness = AConflict "a_b" /\ names raw_witness = ["r#a_b"; "a_r#b"]
+  /\ forallb (fun q => supported_param (fst q)) raw_witness = true /\ plain_words (map fst raw_witness) = true
+  /\ NoDup (flat_map binders (map fst raw_witness)) /\ no_flat_reserved raw_witness
+  /\ forallb ident_like (flat_map binders (map fst raw_witness)) = true.
+Proof.
+  repeat split; try (vm_compute; reflexivity).
+  - cbn. repeat constructor; cbn; intuition discriminate.
+  - unfold no_flat_reserved. repeat constructor; cbn; intuition discriminate.
+Qed.
+(* and in the other direction: the flattening succeeds with identifiers `a_b`, `r#a_b` while the plain names repeat *)
+Example raw_guard_needed2 :
+  let ps := [(PTuple [PIdent false false "r#a"; PIdent false false "b"], tt); (PIdent false false "r#a_b", tt)] in
+  flat_arguments ps = AOk [("a_b", tt); ("r#a_b", tt)] /\ names ps = ["r#a_b"; "r#a_b"] /\ names_raw ps = ["a_b"; "r#a_b"].
+Proof. vm_compute. repeat split. Qed.
